@@ -450,3 +450,27 @@ pub fn run() {
   run.assume("the laws are checked between two observations of the implementation; no external oracle is involved except the and/or truth tables");
   run.finish();
 }
+
+/// replay of one recorded pair / triple: every law is evaluated again on exactly these operands
+pub fn replay_case(case: &serde_json::Value) -> String {
+  let g = |k: &str| case.get(k).and_then(|x| x.as_str()).map(|x| x.to_string());
+  let (ta, tb, tc) = (g("a").unwrap_or_default(), g("b").unwrap_or_default(), g("c"));
+  let law = g("law").unwrap_or_default();
+  let run = Run::new("C09");
+  let l = laws();
+  let cnt = Cnt { evals: AtomicU64::new(0), instances: AtomicU64::new(0) };
+  let (a, b) = (eval_text(&ta), eval_text(&tb));
+  match &tc {
+    Some(tc) => check_triple(&run, &l, &ta, &a, &tb, &b, tc, &eval_text(tc), &cnt),
+    None => {
+      check_pair(&run, &l, &ta, &a, &tb, &b, true, &cnt);
+    }
+  }
+  let v = run.violations_snapshot();
+  // the recorded law first, any other law broken by the same operands otherwise
+  let hit = v.iter().find(|(k, _)| k.starts_with(&law)).or_else(|| v.first());
+  match hit {
+    Some((k, w)) => format!("FAIL {}: {}", k, w),
+    None => format!("PASS every law holds for a = {}, b = {}{}", ta, tb, tc.map(|c| format!(", c = {}", c)).unwrap_or_default()),
+  }
+}
